@@ -19,7 +19,7 @@ func init() { core.Register(c05{}) }
 func (c05) ID() string    { return "C05" }
 func (c05) Level() string { return "exploration" }
 func (c05) Rule() string {
-	return "cases = (configuration, pre-history, batch list): a pre-history with a small DataFileSize spreads keys over >=3 rotated files and the active file (some written by earlier batches, some deleted); then 6..30 batches with heavy key repetition (put-put, put-delete, delete-put, put-delete-put, delete of DB-only keys, empty batches, batches overflowing DataFileSize mid-way). After EVERY staged call Batch.Get of the touched key and of two other keys (rotated-file keys, never-written keys) is compared with the layered model (own latest staged op, else database value); after Commit the full dump is compared with in-order application; every committed batch (also the empty one) must reject Put/Delete/Get/Commit with ErrBatchCommitted without changing state, and a plain Put from another goroutine must then complete (lock released exactly once; a double unlock kills the worker and is reported as process death). Non-trivial: >=1 Batch.Get answered from a rotated file, >=1 put-after-delete of a key in one batch, >=1 overflowing batch; distinct = hash of (config, op log)"
+	return "cases = (configuration, pre-history, batch list): a pre-history with a small DataFileSize spreads keys over >=3 rotated files and the active file (some written by earlier batches, some deleted); then 6..30 batches with heavy key repetition (put-put, put-delete, delete-put, put-delete-put, delete of DB-only keys, empty batches, batches overflowing DataFileSize mid-way); in every second case the caller recycles one key buffer and one value buffer for all Batch calls and overwrites them after each return. After EVERY staged call Batch.Get of the touched key and of two other keys (rotated-file keys, never-written keys) is compared with the layered model (own latest staged op, else database value); after Commit the full dump is compared with in-order application; every committed batch (also the empty one) must reject Put/Delete/Get/Commit with ErrBatchCommitted without changing state, and a plain Put from another goroutine must then complete (lock released exactly once; a double unlock kills the worker and is reported as process death). Non-trivial: >=1 Batch.Get answered from a rotated file, >=1 put-after-delete of a key in one batch, >=1 overflowing batch; distinct = hash of (config, op log)"
 }
 func (c05) Assumptions() []string {
 	return []string{"layered reference model", "the issuing goroutine calls only Batch methods while the batch is open (NewBatch holds the database lock by design)"}
@@ -61,6 +61,10 @@ func (c05) Run(c core.Case, w *core.Worker) core.Result {
 	s.IO = io
 	r := core.NewRng(c.Seed)
 	keys := core.GenKeys(r, sc.NKeys)
+	reuse := c.Index%2 == 1 // the caller recycles one key buffer and one value buffer for every Batch call
+	if reuse {
+		res.Add("cases_reusing_buffers", 1)
+	}
 	never := [][]byte{[]byte("~never1"), []byte("~never2")}
 	g := &core.Gen{R: r, Keys: keys, Cfg: sc.Cfg, NoMerge: true, NoRestart: true, EndOff: io.ActiveEnd, MaxVal: int(sc.Cfg.DataFileSize) / 2}
 	if !s.Open() {
@@ -85,7 +89,7 @@ func (c05) Run(c core.Case, w *core.Worker) core.Result {
 		}
 	}
 	for nb := 0; nb < sc.NOps && !s.Dead && res.Verdict != "violated"; nb++ {
-		runC05Batch(s, &res, r, g, keys, never, io, fileOf, sc.Cfg)
+		runC05Batch(s, &res, r, g, keys, never, io, fileOf, sc.Cfg, reuse)
 	}
 	if !s.Dead {
 		s.Exec(core.Op{Kind: "restart"})
@@ -101,7 +105,7 @@ func (c05) Run(c core.Case, w *core.Worker) core.Result {
 	return res
 }
 
-func runC05Batch(s *core.Session, res *core.Result, r *core.Rng, g *core.Gen, keys, never [][]byte, io *mon.IOLog, fileOf map[string]string, cfg core.Config) {
+func runC05Batch(s *core.Session, res *core.Result, r *core.Rng, g *core.Gen, keys, never [][]byte, io *mon.IOLog, fileOf map[string]string, cfg core.Config, reuse bool) {
 	s.Step++
 	feat := func(call string) map[string]string {
 		return map[string]string{"class": "wrong-result", "call": call, "io": fmt.Sprint(cfg.FileIO), "index": fmt.Sprint(cfg.IndexType)}
@@ -129,11 +133,36 @@ func runC05Batch(s *core.Session, res *core.Result, r *core.Rng, g *core.Gen, ke
 	}
 	active := io.ActivePath()
 	writes0 := res.Counters["io.write"]
+	var kbuf, vbuf []byte
+	kb := func(k []byte) []byte {
+		if !reuse {
+			return k
+		}
+		kbuf = append(kbuf[:0], k...)
+		return kbuf
+	}
+	vb := func(v []byte) []byte {
+		if !reuse {
+			return v
+		}
+		vbuf = append(vbuf[:0], v...)
+		return vbuf
+	}
+	scribble := func() {
+		for i := range kbuf[:cap(kbuf)] {
+			kbuf[:cap(kbuf)][i] = 0xC3
+		}
+		for i := range vbuf[:cap(vbuf)] {
+			vbuf[:cap(vbuf)][i] = 0x3C
+		}
+	}
 	pv, st := core.Safe(func() {
 		b := s.DB.NewBatch(kv.BatchOptions{Sync: r.Chance(1, 5)})
 		hot := g.Key()
 		check := func(k []byte) bool {
-			v, err := b.Get(k)
+			v, err := b.Get(kb(k))
+			v = append([]byte(nil), v...)
+			scribble()
 			res.Add("batch_gets", 1)
 			res.Add("compared_calls", 1)
 			var want []byte
@@ -177,7 +206,9 @@ func runC05Batch(s *core.Session, res *core.Result, r *core.Rng, g *core.Gen, ke
 				if e, ok := overlay[string(k)]; ok && e.del {
 					res.Add("put_after_delete", 1)
 				}
-				if err := b.Put(k, v); err != nil {
+				perr := b.Put(kb(k), vb(v))
+				scribble()
+				if err := perr; err != nil {
 					fail("Batch.Put", fmt.Sprintf("Batch.Put(%q) error %v", k, err))
 					break
 				}
@@ -190,7 +221,9 @@ func runC05Batch(s *core.Session, res *core.Result, r *core.Rng, g *core.Gen, ke
 						res.Add("delete_db_only_key", 1)
 					}
 				}
-				if err := b.Delete(k); err != nil {
+				derr := b.Delete(kb(k))
+				scribble()
+				if err := derr; err != nil {
 					fail("Batch.Delete", fmt.Sprintf("Batch.Delete(%q) error %v", k, err))
 					break
 				}
